@@ -5,10 +5,93 @@ from props.ecommon import mix
 PROJ = {"st": True, "pool": ["ac", "ar"], "A": [0, 4, 5, 7], "S": [0, 1, 2, 3, 4, 5], "D": True, "res": [0, 1]}
 
 
+def measured_writeout(ram, tps):
+    """how many ticks a suspension of a `ram` GB container really lasts at `tps` ticks per second (real Executor, one pool, two short operators)"""
+    import logging, sys
+    from common import REPO
+    logging.disable(logging.CRITICAL)
+    if REPO not in sys.path:
+        sys.path.insert(0, REPO)
+    from eudoxia.executor.executor import Executor
+    from eudoxia.executor.assignment import Assignment, Suspend
+    from eudoxia.workload.pipeline import Pipeline, Segment
+    from eudoxia.utils import Priority
+    ex = Executor(num_pools=1, cpus_per_pool=4, ram_gb_per_pool=1024, ticks_per_second=tps, multi_operator_containers=True)
+    pl = Pipeline("w", Priority.BATCH_PIPELINE)
+    a = pl.new_operator(None)
+    a.add_segment(Segment(baseline_cpu_seconds=1.0 / tps, cpu_scaling="const", memory_gb=0.001, storage_read_gb=0))
+    b = pl.new_operator([a])
+    b.add_segment(Segment(baseline_cpu_seconds=50.0 / tps, cpu_scaling="const", memory_gb=0.001, storage_read_gb=0))
+    asg = Assignment(ops=[a, b], cpu=1, ram=ram, priority=Priority.BATCH_PIPELINE, pool_id=0, pipeline_id="w")
+    ex.run_one_tick([], [asg])
+    pool = ex.pools[0]
+    for _ in range(6):
+        if pool.active_containers and pool.active_containers[0].can_suspend_container():
+            break
+        ex.run_one_tick([], [])
+    c = pool.active_containers[0]
+    if not c.can_suspend_container():
+        raise RuntimeError("harness: the container never reached an operator boundary")
+    ex.run_one_tick([Suspend(c.container_id, 0)], [])
+    n = 1
+    while not pool.suspended_containers and n < 10 ** 6:
+        ex.run_one_tick([], [])
+        n += 1
+    return n, pool.avail_ram_pool, [o.state().name for o in (a, b)]
+
+
+def duration_grid(ctx):
+    """the duration clause on decimal tick rates, where the lock-step (binary lattice) does not go: floor(ram/20 * tps), at least one tick, exactly"""
+    import math, random
+    from fractions import Fraction as F
+    rng = random.Random(ctx.seed + 10)
+    cases = [(6, 10), (12, 10), (7, 1000), (102, 10), (4, 10), (20, 10), (1, 100), (3, 7), (5, 3)]
+    for _ in range(40 if ctx.quick() else 600):
+        tps = rng.choice([1, 2, 3, 7, 10, 16, 50, 100, 1000])
+        ram = rng.choice([rng.randint(1, 256), rng.randint(1, 64) * 2, rng.choice([0.5, 0.25, 1.5, 2.5, 10.75])])
+        if F(ram) / 20 * tps <= 400:
+            cases.append((ram, tps))
+    for ram, tps in cases:
+        exact = max(1, math.floor(F(ram) / 20 * tps))
+        got, free, states = measured_writeout(ram, tps)
+        ctx.coverage["evaluations"] += 1
+        boundary = (F(ram) / 20 * tps).denominator == 1
+        ctx.sit("writeout_exact_multiple_of_a_tick" if boundary else "writeout_between_ticks")
+        if states != ["COMPLETED", "PENDING"] or free != 1024:
+            ctx.violations.append({"what": f"after the write-out of a {ram} GB container at {tps} ticks/s: operator states {states}, free RAM {free} of 1024", "layer": "E",
+                                   "case": {"ram": ram, "tps": tps}, "sig": {"clause": "work-returned-intact"}})
+        elif got != exact:
+            floatrule = max(1, int(ram / 20 / (1.0 / tps)))
+            sig = {"clause": "suspension-duration-float-quotient"} if (got == floatrule and boundary and got == exact - 1) else {"clause": "suspension-duration"}
+            if sum(1 for v in ctx.violations if v["sig"] == sig) < 2:
+                ctx.violations.append({"what": f"suspension of a {ram} GB container at {tps} ticks/s lasts {got} ticks; floor({ram}/20 x {tps}) = {exact}", "layer": "E",
+                                       "case": {"ram": ram, "tps": tps, "ticks": got, "exact": exact}, "sig": sig})
+            ctx.sit("mismatch_" + sig["clause"])
+        else:
+            ctx.coverage["distinct_nontrivial"] += 1
+
+
 def run(ctx):
     k = 1 if ctx.quick() else 8
+    duration_grid(ctx)
     elayer.run_scenarios(ctx, "C10", mix(ctx, 60 * k, 160 * k, 0, 10 * k, 0, bias={"unknown_pool": 0, "zero_frac": 0, "suspend": 0.7, "bad_suspend": 0.06}), PROJ)
 
 
 def replay(ctx, rep):
+    case = rep.get("case") or {}
+    if "ram" in case and "tps" in case and "cfg" not in rep:
+        # a duration case: re-measure it on the real executor
+        import math
+        from fractions import Fraction as F
+        ram, tps = case["ram"], case["tps"]
+        exact = max(1, math.floor(F(ram) / 20 * tps))
+        got, free, states = measured_writeout(ram, tps)
+        ctx.coverage["evaluations"] += 1
+        if got != exact:
+            floatrule = max(1, int(ram / 20 / (1.0 / tps)))
+            boundary = (F(ram) / 20 * tps).denominator == 1
+            sig = {"clause": "suspension-duration-float-quotient"} if (got == floatrule and boundary and got == exact - 1) else {"clause": "suspension-duration"}
+            ctx.violations.append({"what": f"suspension of a {ram} GB container at {tps} ticks/s lasts {got} ticks; floor({ram}/20 x {tps}) = {exact}", "layer": "E",
+                                   "case": {"ram": ram, "tps": tps, "ticks": got, "exact": exact}, "sig": sig})
+        return
     elayer.replay_scenario(ctx, "C10", rep, PROJ)
